@@ -52,7 +52,16 @@ def shard(args):
             done += k
             if rng.random() < 0.35 and done < total:
                 r = rng.random()
-                if r < 0.08 and idle and len(present) < 12:
+                if r < 0.05 and idle and len(present) < 12:
+                    # a condition on a message without priority is loaded and resolved: the message is needed for the condition,
+                    # gets the condition poll priority (5) and is put to the front
+                    i = idle.pop()
+                    lines.append('LOAD\tm\t' + esc('\n*[k%d],pc,p%d,,,,\n[k%d]r,pc,q%d,,,08,b509,ff%02x,v,,UCH,,,\n' % (i, i, i, i, i & 0xff)))
+                    plan.append(None)
+                    lines.append('RESOLVE\tm')
+                    plan.append(('condprio', i, 5))
+                    present[i] = 5
+                elif r < 0.08 and idle and len(present) < 12:
                     i = idle.pop()
                     p = rng.randrange(1, 10)
                     lines.append('SETPRIO\tm\tpc\tp%d\t%d' % (i, p))
@@ -185,6 +194,15 @@ def shard(args):
             stats['perturbation_kinds'][pl[0]] = stats['perturbation_kinds'].get(pl[0], 0) + 1
             if pl[0] == 'setprio':
                 cur[pl[1]] = int(o[2]) if len(o) > 2 and o[2].isdigit() else pl[2]
+            elif pl[0] == 'condprio':
+                if o[1] == '0':
+                    cur[pl[1]] = 5
+                    last_sel[pl[1]] = sel_index
+                    stats['condition_priorities'] = stats.get('condition_priorities', 0) + 1
+                    if stale:
+                        fpstale.add(pl[1])
+                else:
+                    viol.append(('condition-not-resolved', 'history seed=%d #%d: resolveConditions -> %s' % (seed, h, o)))
             elif pl[0] == 'firstprio':
                 # an existing message gets its first priority: it joins the poll set and must neither starve nor monopolise
                 if len(o) > 2 and o[1] == '1' and o[2].isdigit() and int(o[2]) > 0:
